@@ -19,14 +19,14 @@ func init() {
 		ID:      "C17",
 		Level:   "exploration",
 		Workers: 16,
-		Rule: "seeded histories over 2-3 collections created in a FRESH store (collection-number allocation is part of the mechanism), overlapping keys and several clients per collection; after every request the store diff is partitioned by owner (collection number in -_-Datatypes / -_-Operations / -_-Snapshots / -_-Clients, name for user collections): a request issued under collection A may touch only A-owned documents; foreign requests (a client registered in A naming collection B; packs carrying the DUID of a datatype of B with every option-bit combination, sent by a client at sequence 1 and by one further along) must leave B-owned documents untouched and must not return operations of B; the same key in two collections yields two datatypes; ResetCollection(A) at random points removes every A-owned datatype, operation, snapshot and client document and the user collection A while the dump restricted to the other collections is identical; " +
+		Rule: "seeded histories over 2-3 collections created in a FRESH store (collection-number allocation is part of the mechanism), overlapping keys and several clients per collection; after every request the store diff is partitioned by owner (collection number in -_-Datatypes / -_-Operations / -_-Snapshots / -_-Clients, name for user collections): a request issued under collection A may touch only A-owned documents; foreign requests (a client registered in A naming collection B; a client of A first sending a client message that names B - which must be refused without changing anything - and then asking for B's datatype; packs carrying the DUID of a datatype of B with every option-bit combination, sent by a client at sequence 1 and by one further along) must leave B-owned documents untouched and must not return operations of B; the same key in two collections yields two datatypes; ResetCollection(A) at random points removes every A-owned datatype, operation, snapshot and client document and the user collection A while the dump restricted to the other collections is identical; " +
 			"non-trivial = at least two collections hold the same key and at least one request crossed the collection boundary; distinct = hash of the step script",
 		Assumptions: []string{
 			"MongoDB is the in-memory stand-in; volatile timestamps are ignored in diffs",
 		},
 		Trusted: []string{"fakemongo (dump / diff)", "fakemqtt", "harness transport (direct mode)"},
-		Cases:   func(t string) int { return tierN(t, 400, 8000) },
-		Floor:   func(t string) int { return tierN(t, 150, 3000) },
+		Cases:   func(t string) int { return tierN(t, 800, 8000) },
+		Floor:   func(t string) int { return tierN(t, 300, 3000) },
 		Run:     runC17,
 	})
 }
@@ -250,8 +250,43 @@ func runC17(c *core.Case) *core.Result {
 				continue
 			}
 			req := cl.BuildRequest()
-			variant := r.Intn(3)
+			variant := r.Intn(4)
 			switch variant {
+			case 3: // two steps: register for the foreign collection (must be refused), then ask for its datatype
+				if cl.Model == nil || len(req.PushPullPacks) == 0 {
+					continue
+				}
+				msg := model.NewClientMessage(proto.Clone(cl.Model).(*model.Client))
+				msg.Collection = victim.col
+				beforeReg := c17Take(b, numToName)
+				c.Step("%s (registered in %s) sends a client message naming %s", cl.Alias, cl.col, victim.col)
+				out := bed.Guard(10e9, func(ctx context.Context) error {
+					_, err := b.Svc.ProcessClient(ctx, msg)
+					return err
+				})
+				if out.Panic != "" {
+					return c.Violation("server-panic", "ProcessClient panicked: %s", out.Panic)
+				}
+				if out.TimedOut {
+					return c.Inconclusive("ProcessClient watchdog")
+				}
+				if !b.Idle(20e9) {
+					return c.Inconclusive("idle")
+				}
+				if out.Err == nil {
+					return c.Violation("foreign-registration-accepted", "client %s is registered in %s; its client message naming %s was accepted", cl.Alias, cl.col, victim.col)
+				}
+				for owner, docs := range c17Touched(beforeReg, c17Take(b, numToName)) {
+					sort.Strings(docs)
+					return c.Violation("refused-registration-changed-store", "the refused client message of %s (collection %s) naming %s changed stored documents (owner %q): %v", cl.Alias, cl.col, victim.col, owner, docs)
+				}
+				req.Collection = victim.col
+				req.PushPullPacks = req.PushPullPacks[:1]
+				p := req.PushPullPacks[0]
+				p.Key, p.Type, p.DUID = vd.Key, typeOf[vd.Typ], vd.W.GetDUID()
+				p.Option = uint32(model.PushPullBitSubscribe)
+				p.CheckPoint.Sseq, p.CheckPoint.Cseq = 0, 0
+				p.Operations = nil
 			case 0: // names the foreign collection
 				req.Collection = victim.col
 			case 1, 2: // carries the foreign DUID (with the victim's key or the attacker's)
